@@ -9,20 +9,24 @@
 (*     returns at once, an error lets the loop go on immediately;          *)
 (*   - afterwards the results of the attempts still running are drained.   *)
 (* An address accepts or refuses "at once" (well inside one interval) or   *)
-(* never answers: its attempt then fails after Patience intervals.         *)
+(* never answers: its attempt then fails after Patience intervals.  With    *)
+(* LateAfter > 0 an address may also accept late: its attempt succeeds      *)
+(* LateAfter intervals after it was started (0 < LateAfter < Patience).     *)
+(* InlineLast = TRUE is a rejected design: the attempt on the last address  *)
+(* runs on the caller's thread, which hears of nothing else meanwhile.      *)
 (***************************************************************************)
 EXTENDS HappyOrder, FiniteSets, TLC
 
-CONSTANTS MaxPerFamily, Patience
+CONSTANTS MaxPerFamily, Patience, LateAfter, InlineLast
 
-Behaviours == {"accept", "refuse", "blackhole"}
+Behaviours == {"accept", "refuse", "blackhole"} \cup (IF LateAfter > 0 THEN {"late"} ELSE {})
 Addr == [fam : {"v6", "v4"}, n : 1..MaxPerFamily, beh : Behaviours]
 
 VARIABLES resolved,   \* what the resolver returned
           order,      \* attempt order
           next,       \* index of the next address to try
           now,        \* elapsed race intervals
-          pending,    \* black-hole attempts still running: set of [idx, due]
+          pending,    \* attempts still running (black holes, late accepts): set of [idx, due, ok]
           inbox,      \* results delivered and not yet received: set of [idx, ok]
           waiting,    \* the main loop is inside recv_timeout for the attempt started last
           firstErr, result   \* result: [done, ok, idx]
@@ -41,12 +45,26 @@ Init == /\ resolved \in {l \in Lists : WellFormed(l)} /\ order = Sorted(resolved
 
 Running == ~result.done
 \* start the next attempt and begin to wait for any result
-Spawn == /\ Running /\ ~waiting /\ next <= Len(order)
+Slow(a) == a.beh \in {"blackhole", "late"}
+Dur(a) == IF a.beh = "blackhole" THEN Patience ELSE IF a.beh = "late" THEN LateAfter ELSE 0
+Ok(a) == a.beh \in {"accept", "late"}
+Inline == InlineLast /\ next = Len(order)
+Spawn == /\ Running /\ ~waiting /\ next <= Len(order) /\ ~Inline
          /\ LET a == order[next] IN
-            IF a.beh = "blackhole" THEN pending' = pending \cup {[idx |-> next, due |-> now + Patience]} /\ inbox' = inbox
-            ELSE inbox' = inbox \cup {[idx |-> next, ok |-> a.beh = "accept"]} /\ pending' = pending
+            IF Slow(a) THEN pending' = pending \cup {[idx |-> next, due |-> now + Dur(a), ok |-> Ok(a)]} /\ inbox' = inbox
+            ELSE inbox' = inbox \cup {[idx |-> next, ok |-> Ok(a)]} /\ pending' = pending
          /\ next' = next + 1 /\ waiting' = TRUE
          /\ UNCHANGED <<resolved, order, now, firstErr, result>>
+\* (rejected design) the last attempt is made on the caller's thread: the caller sits in it for as long as it takes, and
+\* whatever the other attempts report meanwhile waits in the channel
+SpawnInline == /\ Running /\ ~waiting /\ next <= Len(order) /\ Inline
+               /\ LET a == order[next]
+                      due == {p \in pending : p.due <= now + Dur(a)}
+                  IN /\ now' = now + Dur(a)
+                     /\ pending' = pending \ due
+                     /\ inbox' = inbox \cup {[idx |-> p.idx, ok |-> p.ok] : p \in due} \cup {[idx |-> next, ok |-> Ok(a)]}
+               /\ next' = next + 1 /\ waiting' = TRUE
+               /\ UNCHANGED <<resolved, order, firstErr, result>>
 \* a result is received (in the staggered loop or in the final drain)
 Recv == /\ Running /\ (waiting \/ next > Len(order))
         /\ \E m \in inbox :
@@ -60,20 +78,20 @@ Tick == /\ Running /\ inbox = {} /\ (waiting \/ (next > Len(order) /\ pending # 
         /\ now' = now + 1
         /\ LET due == {p \in pending : p.due <= now + 1} IN
            /\ pending' = pending \ due
-           /\ inbox' = {[idx |-> p.idx, ok |-> FALSE] : p \in due}
+           /\ inbox' = {[idx |-> p.idx, ok |-> p.ok] : p \in due}
         /\ waiting' = FALSE
         /\ UNCHANGED <<resolved, order, next, firstErr, result>>
 \* every attempt has reported: the first error is returned (or "no addresses")
 GiveUp == /\ Running /\ ~waiting /\ next > Len(order) /\ pending = {} /\ inbox = {}
           /\ result' = [done |-> TRUE, ok |-> FALSE, idx |-> firstErr]
           /\ UNCHANGED <<resolved, order, next, now, pending, inbox, waiting, firstErr>>
-Next == Spawn \/ Recv \/ Tick \/ GiveUp
+Next == Spawn \/ SpawnInline \/ Recv \/ Tick \/ GiveUp
 Spec == Init /\ [][Next]_vars /\ WF_vars(Next)
 
 (* ------------------------------ properties ------------------------------ *)
-Accepting == {i \in 1..Len(order) : order[i].beh = "accept"}
+Accepting == {i \in 1..Len(order) : Ok(order[i])}
 SetMin(S) == CHOOSE x \in S : \A y \in S : x <= y
-BlackholesBefore(i) == Cardinality({j \in 1..(i - 1) : order[j].beh = "blackhole"})
+BlackholesBefore(i) == Cardinality({j \in 1..(i - 1) : Slow(order[j])})   \* (attempts that do not answer at once)
 Done == result.done
 \* succeeds iff some address accepts; the socket returned belongs to an address that accepted
 SucceedsIffSomeAccepts == Done => (result.ok <=> Accepting # {})
@@ -85,6 +103,8 @@ OrderOK == /\ Family(order, "v6") = Family(resolved, "v6") /\ Family(order, "v4"
            /\ \A i \in 1..Len(order) : (i % 2 = 1 /\ i <= 2 * Len(Family(resolved, "v6")) /\ i <= 2 * Len(Family(resolved, "v4")) + 1
                                            /\ Family(resolved, "v6") # <<>>) => order[i].fam = "v6" \/ i > 2 * Len(Family(resolved, "v6"))
 \* an unresponsive address costs about one race interval each, not a connect timeout
-QuickSuccess == (Done /\ result.ok) => now <= BlackholesBefore(SetMin(Accepting))
+\* (an address that accepts late is started no later than that and connects LateAfter intervals on: the race is over
+\* as soon as ANY attempt has succeeded, whichever thread made it)
+QuickSuccess == (Done /\ result.ok) => now <= SetMin({BlackholesBefore(i) + Dur(order[i]) : i \in Accepting})
 Terminates == <>Done
 =============================================================================
